@@ -244,8 +244,9 @@ CLAIMED = {
              "model and with an independent mixture reference on generated circuits.",
         technique="Lean 4 proof of the mixture semantics over an executable model + differential check against exact "
                   "rationals and an independent mixture reference",
-        note="PARTIAL: the classical-particle limit and full-path = basic-path are proved for the two-photon input "
-             "only and stated in general as open Props (checked numerically on every case).",
+        note="The classical-particle limit (zero indistinguishability) and full-path = basic-path are proved for every "
+             "input as equalities of mixtures for an arbitrary observable. Trusted: thewalrus.perm, multimethod "
+             "dispatch, float rounding; the 1e-9 backend cut enters as a rational parameter.",
         ref="§5 C06"),
 }
 
